@@ -19,6 +19,7 @@ package vault
 // Sequential ops (one core): probe <path> <op> => allowed|denied (what W's policy grants); expiry => class.
 
 import (
+	"fmt"
 	"github.com/openbao/openbao/v2/internal/helper/namespace"
 	"context"
 	"strings"
@@ -558,10 +559,141 @@ func TestVerifC18Revoke(t *testing.T) {
 	}
 }
 
+// c18ControlGroup: wrapping tokens that carry a deferred control-group request. alice's policy puts `update` of rec/data/cg
+// behind one approval by a member of group c18approvers (bob). (1) cgunwrap: alice's update is deferred (she receives a
+// wrapping token), bob approves, the first unwrap executes the update; root overwrites the value; every further unwrap —
+// with the token as client token, in the body of alice's request — and a lookup must fail and the value must stay.
+// (2) cgstanza: an ordinary response-wrapped READ of that path (read is not controlled): the unwrap returns the stored
+// response once, the second one fails.
+func c18ControlGroup(t *testing.T, out *vh.Out) {
+	_, c, root, _ := c19Setup(t)
+	defer func() { _ = c.Shutdown() }()
+	pol := func(name, body string) {
+		if cl, _ := vhReq(c, logical.UpdateOperation, "sys/policies/acl/"+name, root, map[string]any{"policy": body}); cl != "ok" {
+			t.Fatalf("policy %s: %s", name, cl)
+		}
+	}
+	pol("c18cg", `
+path "rec/data/cg" {
+  capabilities = ["read", "update", "create"]
+  control_group = {
+    ttl = "5m"
+    factor "approval" {
+      controlled_capabilities = ["update", "create"]
+      identity = {
+        group_names = ["c18approvers"]
+        approvals   = 1
+      }
+    }
+  }
+}
+path "sys/wrapping/unwrap" { capabilities = ["update"] }
+`)
+	pol("c18approve", `
+path "sys/control-group/authorize" { capabilities = ["update"] }
+path "sys/control-group/request"   { capabilities = ["update"] }
+`)
+	ent := func(name string, pols []string) string {
+		_, r := vhReq(c, logical.UpdateOperation, "identity/entity", root, map[string]any{"name": name, "policies": pols})
+		if r == nil || r.Data == nil {
+			t.Fatalf("entity %s", name)
+		}
+		id, _ := r.Data["id"].(string)
+		return id
+	}
+	aliceID, bobID := ent("c18alice", []string{"c18cg"}), ent("c18bob", nil)
+	if cl, _ := vhReq(c, logical.UpdateOperation, "identity/group", root, map[string]any{"name": "c18approvers", "policies": []string{"c18approve"}, "member_entity_ids": []string{bobID}}); cl != "ok" {
+		t.Fatalf("group: %s", cl)
+	}
+	alice := &logical.TokenEntry{Path: "auth/test/login", Policies: []string{"default"}, EntityID: aliceID, TTL: time.Hour}
+	testMakeTokenDirectly(t, vhRootCtx(), c.tokenStore, alice)
+	bob := &logical.TokenEntry{Path: "auth/test/login", Policies: []string{"default"}, EntityID: bobID, TTL: time.Hour}
+	testMakeTokenDirectly(t, vhRootCtx(), c.tokenStore, bob)
+	if cl, _ := vhReq(c, logical.UpdateOperation, "rec/data/cg", root, map[string]any{"value": "v0"}); cl != "ok" {
+		t.Fatalf("seed: %s", cl)
+	}
+	value := func() string {
+		_, r := vhReq(c, logical.ReadOperation, "rec/data/cg", root, nil)
+		if r == nil || r.Data == nil {
+			return "?"
+		}
+		v, _ := r.Data["value"].(string)
+		return v
+	}
+	unwrap := func(client, bodyTok string) (string, *logical.Response) {
+		var d map[string]any
+		if bodyTok != "" {
+			d = map[string]any{"token": bodyTok}
+		}
+		return vhReq(c, logical.UpdateOperation, "sys/wrapping/unwrap", client, d)
+	}
+	b2 := func(cl string) string {
+		if cl == "ok" {
+			return "ok"
+		}
+		return "err"
+	}
+
+	// (1) approved control-group token
+	out.Reset()
+	_, resp := vhReq(c, logical.UpdateOperation, "rec/data/cg", alice.ID, map[string]any{"value": "v1"})
+	if resp == nil || resp.WrapInfo == nil {
+		out.Op("unmodelled:no-control-group-token", "cgunwrap")
+	} else {
+		w := resp.WrapInfo
+		acl, _ := vhReq(c, logical.UpdateOperation, "sys/control-group/authorize", bob.ID, map[string]any{"accessor": w.Accessor})
+		u1, _ := unwrap(w.Token, "")
+		first := value()
+		if cl, _ := vhReq(c, logical.UpdateOperation, "rec/data/cg", root, map[string]any{"value": "v2"}); cl != "ok" {
+			t.Fatalf("overwrite: %s", cl)
+		}
+		u2, _ := unwrap(w.Token, "")
+		u3, _ := unwrap(alice.ID, w.Token)
+		lk, _ := vhReq(c, logical.UpdateOperation, "sys/wrapping/lookup", root, map[string]any{"token": w.Token})
+		kept := "kept"
+		if value() != "v2" {
+			kept = "replayed"
+		}
+		res := fmt.Sprintf("approve:%s|first:%s:%s|second:%s|third:%s|lookup:%s|value:%s", b2(acl), b2(u1), first, b2(u2), b2(u3), b2(lk), kept)
+		if b2(u1) == "ok" && (b2(u2) == "ok" || b2(u3) == "ok" || b2(lk) == "ok" || kept != "kept") {
+			res += "!VIOL:a wrapping token carrying an approved control-group request was unwrapped more than once (the approved request was executed again)#control-group-token-unwrapped-twice"
+		}
+		out.Op(res, "cgunwrap")
+	}
+
+	// (2) an ordinary wrapped read on a path whose stanza has a control group for other capabilities
+	out.Reset()
+	req := &logical.Request{Operation: logical.ReadOperation, Path: "rec/data/cg", ClientToken: alice.ID, WrapInfo: &logical.RequestWrapInfo{TTL: time.Minute}}
+	req.SetTokenEntry(nil)
+	r2, err := c.HandleRequest(vhRootCtx(), req)
+	if err != nil || r2 == nil || r2.WrapInfo == nil {
+		out.Op("unmodelled:no-wrapping-token", "cgstanza")
+		return
+	}
+	w := r2.WrapInfo
+	u1, ur := unwrap(w.Token, "")
+	got := "other"
+	switch {
+	case u1 != "ok":
+		got = "err"
+	case ur != nil && ur.WrapInfo != nil:
+		got = "rewrapped"
+	case ur != nil && ur.Data != nil:
+		got = "data"
+	}
+	u2, _ := unwrap(w.Token, "")
+	res := fmt.Sprintf("first:%s|second:%s", got, b2(u2))
+	if got != "data" || b2(u2) == "ok" {
+		res += "!VIOL:an ordinary response-wrapped read on a path whose policy stanza carries a control group (for other capabilities) is not unwrapped exactly once: the unwrap answered " + got + ", a second one " + b2(u2) + "#wrapped-read-under-control-group-stanza-reexecuted"
+	}
+	out.Op(res, "cgstanza")
+}
+
 func TestVerifC18(t *testing.T) {
 	out := vh.Open()
 	defer out.Close()
 	rng := vh.NewRand(vh.Seed())
+	c18ControlGroup(t, out)
 	c18Sequential(t, out, rng.Fork(1<<41))
 	histRounds := 12
 	if vh.Thorough() {
